@@ -2,6 +2,7 @@ package harness
 
 import (
 	"context"
+	"errors"
 	"fmt"
 	"testing"
 	"time"
@@ -119,6 +120,11 @@ func c02Body(sc *WF) Verdict {
 		if rr.Panic != "" {
 			return bad("C02:panic", "run panicked: %s", rr.Panic)
 		}
+		if ref != nil && rr.Err != nil && (errors.Is(rr.Err, context.DeadlineExceeded) || errors.Is(rr.Err, context.Canceled)) {
+			// the implementation gave up because of the deadline it was handed (e.g. "not enough
+			// time left for the wait"): contexts are outside C02's quantifier, nothing to assert
+			return ok(false, "live-deadline-honoured-early")
+		}
 		if ctx.Err() != nil {
 			// this run took longer than the reference run of the same scenario (waits need not be
 			// reproducible, e.g. jitter): the deadline was not "beyond the end", nothing to assert
@@ -178,7 +184,7 @@ func c02Body(sc *WF) Verdict {
 
 func checkC02(t *testing.T, sc WF) Verdict {
 	var v Verdict
-	if f := Bubble(t, func() { v = c02Body(&sc) }); f != "" {
+	if f := Bubble(t, func() { v = c02Body(&sc) }); f != "" && !goroutinesRemain(f) {
 		return bad("C02:bubble", "%s", f)
 	}
 	return v
@@ -319,7 +325,7 @@ func checkC02Flow(t *testing.T, sc WF) Verdict {
 		}
 		v = ok(retried, "flow-with-retry-budget")
 	})
-	if f != "" {
+	if f != "" && !goroutinesRemain(f) {
 		return bad("C02:bubble", "%s", f)
 	}
 	return v
